@@ -19,7 +19,7 @@ RULE = ("cases: scheduler trees (depth <= 3, <= 16 jobs, <= 5 members per schedu
         "with a nested scheduler at either end; distinct = distinct scenario digest")
 ASSUMPTIONS = RT_ASSUMPTIONS
 
-PROFILE = S.GENERAL.but(p_rerun=8, p_edge=45, p_nested=25, p_raise=22, p_forever=8, p_wild=10,
+PROFILE = S.GENERAL.but(p_block=6, p_rerun=8, p_edge=45, p_nested=25, p_raise=22, p_forever=8, p_wild=10,
                         ks=((0, 3), (1, 2), (2, 2), (3, 1)))
 
 
